@@ -10,20 +10,26 @@ import (
 
 func LoadInt32(addr *int32) int32 {
 	vsched.Yield("atomic-load")
+	vsched.AtomicLoad(addr)
 	return stdatomic.LoadInt32(addr)
 }
 
 func StoreInt32(addr *int32, v int32) {
 	vsched.Yield("atomic-store")
+	vsched.AtomicStore(addr)
 	stdatomic.StoreInt32(addr, v)
 }
 
 func AddInt32(addr *int32, d int32) int32 {
 	vsched.Yield("atomic-add")
+	vsched.AtomicLoad(addr)
+	vsched.AtomicStore(addr)
 	return stdatomic.AddInt32(addr, d)
 }
 
 func CompareAndSwapInt32(addr *int32, old, new int32) bool {
 	vsched.Yield("atomic-cas")
+	vsched.AtomicLoad(addr)
+	vsched.AtomicStore(addr)
 	return stdatomic.CompareAndSwapInt32(addr, old, new)
 }
